@@ -86,6 +86,13 @@ func (s *Sim) envKey() string {
 		}
 		parts = append(parts, fmt.Sprintf("%p%s", v, c))
 	}
+	for v, b := range s.env.isNil {
+		c := "n"
+		if !b {
+			c = "N"
+		}
+		parts = append(parts, fmt.Sprintf("%p%s", v, c))
+	}
 	sort.Strings(parts)
 	return strings.Join(parts, ",")
 }
@@ -235,14 +242,32 @@ func (s *Sim) walk(fr *Frame, b *ssa.BasicBlock, idx int, pred *ssa.BasicBlock, 
 			s.walk(fr, b.Succs[k], 0, b, recs, onPath, resume, stackKey)
 			return
 		}
-		s.walk(fr, b.Succs[0], 0, b, recs, onPath, resume, stackKey)
-		s.walk(fr, b.Succs[1], 0, b, recs, onPath, resume, stackKey)
+		// an undecided nil test: remember the outcome along each branch
+		cond, neg := x.Cond, false
+		for {
+			u, ok := cond.(*ssa.UnOp)
+			if !ok || u.Op.String() != "!" {
+				break
+			}
+			cond, neg = u.X, !neg
+		}
+		nx, trueMeansNil, isNilCmp := nilCompare(cond)
+		for k := 0; k < 2; k++ {
+			m := s.env.mark()
+			if isNilCmp {
+				condTrue := (k == 0) != neg
+				s.env.setNil(nx, condTrue == trueMeansNil)
+			}
+			s.walk(fr, b.Succs[k], 0, b, recs, onPath, resume, stackKey)
+			s.env.rollback(m)
+		}
 	case *ssa.Jump:
 		s.walk(fr, b.Succs[0], 0, b, recs, onPath, resume, stackKey)
 	case *ssa.Return:
 		if fr.call != nil && resume != nil {
 			m := s.env.mark()
 			s.env.bindResults(fr, x)
+			s.env.bindNilness(fr, x)
 			// non-constant boolean results: evaluate through the atom table
 			results := retResults(x)
 			bind := func(target ssa.Value, rv ssa.Value) {
